@@ -66,7 +66,9 @@ Inductive case :=
 | CToChars (s : ustring)
 | CStartsWith (s t : ustring) | CEndsWith (s t : ustring) | CContains (s t : ustring)
 | CReplace (s p r : ustring)
-| CUpper (s : ustring) | CLower (s : ustring).
+| CUpper (s : ustring) | CLower (s : ustring)
+| CSplit (s : ustring) (k : Z).      (* s.substring(0, k) & s.substring(k): the two parts joined (an empty part joins as '') *)
+Definition opt_str (o : option ustring) : ustring := match o with Some r => r | None => [] end.
 
 Inductive out :=
 | OStr (s : ustring) (valid_utf8 : bool)
@@ -107,6 +109,7 @@ Definition model (c : case) : outcome :=
   | CReplace s p r => Ok (OStr (replace_ s p r) true)
   | CUpper s => Ok (OStr (map upper_ascii s) true)
   | CLower s => Ok (OStr (map lower_ascii s) true)
+  | CSplit s k => Ok (OStr (opt_str (substring s 0 (Some k)) ++ opt_str (substring s k None)) true)
   end.
 
 Definition agrees (c : case) (o : outcome) : bool :=
@@ -147,6 +150,7 @@ Definition holds (c : case) (o : outcome) : bool :=
   | CReplace s p r => outcome_eqb o (Ok (OStr (replace_ s p r) true))
   | CUpper s => match o with Ok (OStr r true) => case_agrees upper_ascii s r | _ => false end
   | CLower s => match o with Ok (OStr r true) => case_agrees lower_ascii s r | _ => false end
+  | CSplit s k => if k <? 0 then true else outcome_eqb o (Ok (OStr s true))    (* cutting anywhere and joining gives s back *)
   end.
 Definition kf (c : case) : N := 0%N.
 
